@@ -814,7 +814,11 @@ func (gen *Generator) GenerateCall(expr *SexpPair) error {
 }
 
 func (gen *Generator) GenerateArray(arr *SexpArray) error {
+	// the elements are not in tail position: the array is built after them.
+	oldtail := gen.Tail
+	gen.Tail = false
 	err := gen.GenerateAll(arr.Val)
+	gen.Tail = oldtail
 	if err != nil {
 		return err
 	}
